@@ -17,7 +17,8 @@ Definition C20_in_scope (o : op) : bool :=
 
 (* PROPERTY (sequential clause), strongest true form: after ANY history of in-scope calls (puts with
    conditions/tags/metadata/class, appends, copies, deletes, bulk deletes, tagging changes, storage-class
-   transitions, multipart
+   transitions, versioning changes (Enabled / Suspended), deletes / bulk deletes / tagging / transitions that
+   name a version id (e.g. removing the CURRENT version by its id, which promotes another one), multipart
    create/part/complete/abort, heads and gets, in both the unversioned and the versioned bucket), every
    HeadObject and every GetObject through the middleware — with any If-Match / If-None-Match — returns
    exactly what the inner storage returns at that moment (same object record incl. every attribute,
@@ -33,6 +34,28 @@ Theorem C20_transparent_partial : forall ops,
 Proof. exact transparent_partial. Qed.
 Print Assumptions C20_transparent_partial.
 
+(* reads that name a version id are answered by the inner storage (the cache is bypassed), in every
+   state whatsoever *)
+Theorem C20_versioned_reads_bypass : forall s k vr im inm, bucket_ok (fst k) = true ->
+  step s (OHeadV k vr im inm) =
+    (s, match inner_head_v (s_in s) k vr im inm with RObj o => RHead o | RErr e => RStatus e end) /\
+  step s (OGetV k vr im inm) =
+    (s, match inner_get_v (s_in s) k vr im inm with GObj o b => RGet o b | GErr e => RStatus e end).
+Proof. intros s k vr im inm H. cbn [step]. rewrite H. split; reflexivity. Qed.
+Print Assumptions C20_versioned_reads_bypass.
+
+(* the scenario of the follow-up round: two versions, the current one cached by a GET, then deleted
+   BY ITS VERSION ID: the previous version becomes current and the middleware answers with it *)
+Definition w_delete_current_by_id : list op :=
+  [OPut (1, 0) 3 0 0 0 0 PNone; OPut (1, 0) 4 1 1 1 0 PNone; OGet (1, 0) CNone CNone; ODelete (1, 0) CNone (VRId 1)].
+Theorem C20_delete_current_by_id :
+  let s := fst (run st0 w_delete_current_by_id) in
+  nth_error (map show_res (snd (run st0 w_delete_current_by_id))) 2 = Some B"ok=1:1:1:0:s:4" /\
+  (exists o, inner_get (s_in s) (1, 0) CNone CNone = GObj o [3]) /\
+  (exists o, snd (step s (OGet (1, 0) CNone CNone)) = RGet o [3]).
+Proof. vm_compute. repeat split; eexists; reflexivity. Qed.
+Print Assumptions C20_delete_current_by_id.
+
 (* the property as stated (all histories) *)
 Definition C20_transparent_full : Prop := forall ops,
   forall k im inm, bucket_ok (fst k) = true ->
@@ -45,7 +68,7 @@ Definition C20_transparent_full : Prop := forall ops,
 (* refuted by the open-reader schedule [w_race] below: afterwards GetObject through the middleware
    returns version 2's record with version 1's body, the inner storage version 2's body *)
 Definition w_race : list op :=
-  [OPut (0, 0) 3 0 0 0 0 PNone; OTag (0, 0) 1; OGetOpen (0, 0) CNone CNone;
+  [OPut (0, 0) 3 0 0 0 0 PNone; OTag (0, 0) 1 VRNone; OGetOpen (0, 0) CNone CNone;
    OPut (0, 0) 4 0 0 0 0 PNone; OGetFinish 0].
 
 Theorem C20_transparent_refuted : ~ C20_transparent_full.
@@ -58,7 +81,7 @@ Print Assumptions C20_transparent_refuted.
 (* regression of the former finding C20-stale-after-transition (fixed by c25178c): PUT, then a
    successful transition to class 2: inner storage and middleware both report class 2 *)
 Definition w_transition : list op :=
-  [OPut (0, 0) 3 1 1 1 0 PNone; OHead (0, 0) CNone CNone; OTrans (0, 0) 2 CNone].
+  [OPut (0, 0) 3 1 1 1 0 PNone; OHead (0, 0) CNone CNone; OTrans (0, 0) 2 CNone VRNone].
 Theorem C20_transition_regression :
   let s := fst (run st0 w_transition) in
   (exists o, inner_head (s_in s) (0, 0) CNone CNone = RObj o /\ o_cls o = 2) /\
@@ -112,11 +135,13 @@ Print Assumptions C20_body_matches_partial.
 (* non-vacuity: an in-scope history that exercises hits, misses, invalidation, both buckets *)
 Definition ex_hist : list op :=
   [OPut (0, 0) 3 1 1 1 2 PNone; OPut (0, 2) 0 0 0 0 0 PNone; OGet (0, 2) CNone CNone; OHead (0, 0) CNone CNone; OGet (0, 0) (CTag (ES 3)) CNone;
-   OAppend (0, 0) 4 None; OGet (0, 0) CNone CNone; OTrans (0, 0) 3 CNone; OHead (0, 0) CNone CNone; OCopy (0, 0) (1, 1) false 0 0 true 2 3;
-   OGet (1, 1) CNone CNone; ODelete (1, 1) CNone; OHead (1, 1) CNone CNone].
+   OAppend (0, 0) 4 None; OGet (0, 0) CNone CNone; OTrans (0, 0) 3 CNone VRNone; OHead (0, 0) CNone CNone; OCopy (0, 0) (1, 1) false 0 0 true 2 3;
+   OGet (1, 1) CNone CNone; ODelete (1, 1) CNone VRNone; OHead (1, 1) CNone CNone;
+   ODelete (1, 1) CNone (VRId 1); OGet (1, 1) CNone CNone; OVers 0 VSuspended; OTag (1, 1) 1 (VRId 0); OHeadV (1, 1) (VRId 0) CNone CNone].
 Example C20_ex_in_scope : forallb C20_in_scope ex_hist = true.
 Proof. reflexivity. Qed.
 Example C20_ex_results :
   map show_res (snd (run st0 ex_hist)) =
-  [B"ok"; B"ok"; B"ok=0:0:0:0:s:-"; B"ok=1:1:1:2:s"; B"ok=1:1:1:2:s:3"; B"ok"; B"ok=1:1:1:2:m2:3.4"; B"ok"; B"ok=1:1:1:3:m2"; B"ok"; B"ok=1:1:2:3:m2:3.4"; B"ok"; B"DeleteMarker"].
+  [B"ok"; B"ok"; B"ok=0:0:0:0:s:-"; B"ok=1:1:1:2:s"; B"ok=1:1:1:2:s:3"; B"ok"; B"ok=1:1:1:2:m2:3.4"; B"ok"; B"ok=1:1:1:3:m2"; B"ok"; B"ok=1:1:2:3:m2:3.4"; B"ok"; B"DeleteMarker";
+   B"ok"; B"ok=1:1:2:3:m2:3.4"; B"ok"; B"ok"; B"ok=1:1:1:3:m2"].
 Proof. vm_compute. reflexivity. Qed.
